@@ -98,7 +98,7 @@ var Props = map[string]*PropCfg{
 		Assume:    codecAssume, RealStub: stdRealStub(),
 	},
 	"C09": {
-		ID: "C09", Level: "exploration",
+		ID: "C09", Level: "exploration", Evolve: true,
 		Rule: "one evaluation = one scenario with a sender built under option mask X and a receiver under mask Y != X of the same schema: bytes from X must equal bytes from Y (every encoder, same imposed map order) and Y must decode X's bytes to the value (every decoder incl. MustUnmarshalBebop where generated, stream paths under drawn schedules); " +
 			"distinct_nontrivial counts distinct (record shape, option difference X xor Y, decoder/encoder) triples",
 		RandProgs: map[string]int{"quick": 10, "thorough": 40},
